@@ -18,13 +18,25 @@ build() {
   # gensim/.cargo/config.toml (rustflags = --cfg unic_locale_verif).
   if ! (cd "$GENSIM" && cargo build --release --offline --quiet 2>"$GENSIM/build.log"); then
     # The generators are compiled against wrappers of std::path::{Path, PathBuf} (file-system
-    # queries answered by the simulated file system). A program that uses a corner of the path API
-    # the wrappers lack must not cost the whole check: build again with the real path types
-    # (Path::exists and friends then ask the real tree, as before the wrappers existed).
+    # queries answered by the simulated file system), and the library's sources are compiled a
+    # second time under the thread engine (S7). A program that uses a corner of the path API the
+    # wrappers lack, or a library that does not compile inside the simulator (a new dependency,
+    # a primitive the engine lacks), must not cost the whole check: build again with the real path
+    # types (Path::exists and friends then ask the real tree), then without S7, then without both.
     cp "$GENSIM/build.log" "$GENSIM/build.first.log"
-    if (cd "$GENSIM" && cargo build --release --offline --quiet --no-default-features --features likelysubtags 2>"$GENSIM/build.log"); then
-      echo "note: the generators do not compile against the simulator's Path/PathBuf wrappers; built with the real path types (see $GENSIM/build.first.log)" >&2
-    else
+    built=""
+    for feats in "likelysubtags" "path_shadow" ""; do
+      if (cd "$GENSIM" && cargo build --release --offline --quiet --no-default-features --features "$feats" 2>"$GENSIM/build.log"); then
+        built="yes"
+        case "$feats" in
+          likelysubtags) echo "note: the generators do not compile against the simulator's Path/PathBuf wrappers; built with the real path types (see $GENSIM/build.first.log)" >&2 ;;
+          path_shadow) echo "note: the library does not compile inside the simulator; built without the concurrent-callers batch S7 (see $GENSIM/build.first.log)" >&2 ;;
+          *) echo "note: built with the real path types and without the concurrent-callers batch S7 (see $GENSIM/build.first.log)" >&2 ;;
+        esac
+        break
+      fi
+    done
+    if [ -z "$built" ]; then
       echo "HARNESS-ERROR: the simulator does not build against /repo's working tree (see $GENSIM/build.log)" >&2
       grep -E "^error" -A8 "$GENSIM/build.log" | head -60 >&2
       exit 2
